@@ -208,7 +208,13 @@ def run_shard(spec) -> Result:
             ins = decode(buf0, addr, OPCODES)
         except BaseException:  # noqa: BLE001
             continue
-        _, _, shape = shape_of(ins.render())
+        try:
+            _, _, shape = shape_of(ins.render())
+        except BaseException as e:  # noqa: BLE001
+            # an accepted instruction that cannot be rendered has no text to reassemble: that is C01's clause
+            # (info accepts => text accepts); counted here, not judged
+            res.count("render_raises:" + type(e).__name__)
+            continue
         if shape is None:
             continue
         key = (shape, ins._pre is not None and pfx)
